@@ -92,7 +92,7 @@ type layer struct {
 }
 
 type tcase struct {
-	mode   byte // H N S
+	mode   byte // H N S G
 	nf     int
 	cancel int // 0 = never; k = the context is cancelled once the trace has made k re-extractions
 	layers []layer
@@ -193,9 +193,12 @@ func run(c tcase) string {
 				panic(err)
 			}
 			cf = cf.DeepCopy()
-			if c.mode == 'N' {
+			switch {
+			case c.mode == 'N':
 				cf.History = nil
-			} else if len(cf.History) > 0 {
+			case c.mode == 'G':
+				cf.History = append(cf.History, v1.History{CreatedBy: "ghost"})
+			case len(cf.History) > 0:
 				cf.History = cf.History[:len(cf.History)-1]
 			}
 			img, err = mutate.ConfigFile(img, cf)
@@ -315,6 +318,8 @@ func randCase(r *rand.Rand) tcase {
 		c.mode = 'N'
 	case 1:
 		c.mode = 'S'
+	case 4:
+		c.mode = 'G'
 	case 2:
 		c.nf = 3
 	case 3:
